@@ -16,6 +16,7 @@ import (
 	"verif/core"
 	"verif/vs"
 	"verif/vs/vnet"
+	"verif/vs/vtime"
 )
 
 func init() {
@@ -85,9 +86,12 @@ type c14Scn struct {
 	BufOrder int    `json:"buf_order"` // 0: BUFFER n, PTT TRUE, BUFFER 0, PTT FALSE back to back; 1: BUFFER n, pause, BUFFER 0; 2: BUFFER n, n/2, 0 back to back
 	CloseAns int    `json:"close_ans"` // 0 DISCONNECTED, 1 NEWSTATE DISC, 2 silence
 	Mal      int    `json:"mal"`
-	Mixed    bool   `json:"mixed,omitempty"` // FEC and ERR data frames (and an ID frame) arrive between the ARQ frames: they are not part of the connection's stream
-	Early    bool   `json:"early,omitempty"` // serial mode: the first ARQ frame follows CONNECTED at once (the remote's banner), before the host's next command is answered
-	Deep     bool   `json:"deep,omitempty"`  // small scenario explored one deviation deeper, also in the quick tier
+	Mixed    bool   `json:"mixed,omitempty"`     // FEC and ERR data frames (and an ID frame) arrive between the ARQ frames: they are not part of the connection's stream
+	Early    bool   `json:"early,omitempty"`     // serial mode: the first ARQ frame follows CONNECTED at once (the remote's banner), before the host's next command is answered
+	DieAfter int    `json:"die_after,omitempty"` // the TNC answers this many host commands and is gone right behind the last answer (link lost, process killed)
+	Flood    int    `json:"flood,omitempty"`     // inbound: the TNC delivers this many 6-byte ARQ frames in one go (more than the library queues) while the application reads
+	Second   bool   `json:"second,omitempty"`    // listen: after the first session has ended a second station calls the same listener
+	Deep     bool   `json:"deep,omitempty"`      // small scenario explored one deviation deeper, also in the quick tier
 	Choices  []int  `json:"choices,omitempty"`
 }
 
@@ -97,7 +101,7 @@ func (s c14Scn) describe() string {
 		mode = "serial"
 	}
 	return fmt.Sprintf("%s %s offline=%v dial=%s frames=%v readbuf=%d late=%v seg=%s writes=%v crcfault=%d buforder=%d closeans=%d mal=%d",
-		s.Kind, mode, s.Offline, s.Dial, s.Frames, s.ReadBuf, s.LateRead, c13SegName(s.Seg), s.Writes, s.CRCFault, s.BufOrder, s.CloseAns, s.Mal) + map[bool]string{true: " early-frame", false: ""}[s.Early] + map[bool]string{true: " mixed-frame-types", false: ""}[s.Mixed]
+		s.Kind, mode, s.Offline, s.Dial, s.Frames, s.ReadBuf, s.LateRead, c13SegName(s.Seg), s.Writes, s.CRCFault, s.BufOrder, s.CloseAns, s.Mal) + map[bool]string{true: " early-frame", false: ""}[s.Early] + map[bool]string{true: " mixed-frame-types", false: ""}[s.Mixed] + map[bool]string{true: " then-a-second-caller", false: ""}[s.Second] + map[bool]string{true: fmt.Sprintf(" flood=%d", s.Flood)}[s.Flood > 0] + map[bool]string{true: fmt.Sprintf(" tnc-gone-after-%d-commands", s.DieAfter)}[s.DieAfter > 0]
 }
 
 type c14Sim struct {
@@ -204,6 +208,12 @@ func (t *c14Sim) command(line string) {
 		t.say("SENDID")
 	default:
 		t.complain("unexpected command %q", line)
+	}
+	if t.sc.DieAfter > 0 && len(t.cmds) == t.sc.DieAfter {
+		t.ctrl.Close()
+		if t.data != nil {
+			t.data.Close()
+		}
 	}
 }
 
@@ -328,6 +338,9 @@ type c14Obs struct {
 	dialErr     error
 	read        []byte
 	readErr     error
+	read2       []byte
+	readErr2    error
+	acceptErr2  error
 	wrote       []byte
 	writeErr    error
 	shortN      []int
@@ -457,9 +470,10 @@ func c14Harness(sc c14Scn, o *c14Obs) func() {
 				}
 				return
 			}
+			var ln net.Listener
 			if sc.Kind == "listen" {
 				o.stage = "listen"
-				ln, err := tnc.Listen()
+				ln, err = tnc.Listen()
 				if err != nil {
 					o.acceptErr = err
 					return
@@ -493,6 +507,9 @@ func c14Harness(sc c14Scn, o *c14Obs) func() {
 				o.stage = "read"
 				arqDone := false
 				vs.GoNamed("tnc-arq", false, func() {
+					for k := 0; k < sc.Flood; k++ {
+						sim.sendARQ(c13Payload(k%97, 6))
+					}
 					for k, n := range sc.Frames {
 						if k == 0 && sim.earlySent {
 							continue
@@ -510,6 +527,16 @@ func c14Harness(sc c14Scn, o *c14Obs) func() {
 						sim.sendARQ(c13Payload(k, n))
 					}
 					vs.WaitQuiescent()
+					if sc.Flood > 0 && !sc.Serial {
+						// TCP mode has two sockets and the host protocol defines no order between them: a
+						// DISCONNECTED that overtakes a backlog on the data socket cannot be told from stray
+						// frames after a disconnect. The link ends when the backlog has been taken.
+						total := 6 * sc.Flood
+						for _, n := range sc.Frames {
+							total += n
+						}
+						vs.WaitUntil("the application has read the backlog", func() bool { return len(o.read) >= total })
+					}
 					sim.say("DISCONNECTED")
 					sim.say("NEWSTATE DISC")
 					vs.WaitQuiescent()
@@ -518,6 +545,9 @@ func c14Harness(sc c14Scn, o *c14Obs) func() {
 				if sc.LateRead {
 					vs.WaitUntil("tnc has delivered everything and disconnected", func() bool { return arqDone })
 				}
+				if sc.Flood > 0 {
+					vtime.Sleep(10 * time.Second) // the application is busy for a while: the flood piles up in the library
+				}
 				size := sc.ReadBuf
 				if size == 0 {
 					size = 65536
@@ -525,10 +555,46 @@ func c14Harness(sc c14Scn, o *c14Obs) func() {
 				buf := make([]byte, size)
 				for {
 					n, err := conn.Read(buf)
+					if os.Getenv("VERIF_DEBUG_READS") != "" {
+						fmt.Printf("read #%d: %d bytes %q err=%v\n", len(o.read), n, buf[:n], err)
+					}
 					o.read = append(o.read, buf[:n]...)
 					if err != nil {
 						o.readErr = err
 						break
+					}
+				}
+				if sc.Second && ln != nil { // the listener stays open: the next caller gets a session of its own
+					o.stage = "close-first"
+					conn.Close()
+					o.stage = "second-accept"
+					vs.GoNamed("tnc-second-call", false, func() {
+						vs.WaitQuiescent()
+						sim.say("TARGET N0MYC")
+						sim.say("NEWSTATE IRS")
+						sim.say("CONNECTED N0OTHER 500")
+						sim.connected = true
+						for k, n := range sc.Frames {
+							vs.WaitQuiescent()
+							sim.sendARQ(c13Payload(k+10, n))
+						}
+						vs.WaitQuiescent()
+						sim.say("DISCONNECTED")
+						sim.say("NEWSTATE DISC")
+					})
+					conn2, err := ln.Accept()
+					o.acceptErr2 = err
+					if err != nil {
+						return
+					}
+					o.stage = "second-read"
+					for {
+						n, err := conn2.Read(buf)
+						o.read2 = append(o.read2, buf[:n]...)
+						if err != nil {
+							o.readErr2 = err
+							break
+						}
 					}
 				}
 			case "outbound", "ptt":
@@ -593,6 +659,9 @@ func c14Judge(sc c14Scn, o *c14Obs, res *vs.Result) (out []c14Finding) {
 		add("panic|"+res.Panic.Site, "%s (thread %s)", core.Trunc(res.Panic.Value, 200), res.Panic.Thread)
 		return
 	}
+	for _, f := range closeSendRaces(res) {
+		add(f[0], "%s", f[1])
+	}
 	sim := o.sim
 	for _, c := range sim.complaints {
 		add("host-frame-malformed", "%s", c)
@@ -603,6 +672,9 @@ func c14Judge(sc c14Scn, o *c14Obs, res *vs.Result) (out []c14Finding) {
 	if res.Outcome != "done" {
 		add("application-call-never-returns|"+o.stage, "%s: %+v", res.Outcome, res.Blocked)
 		return
+	}
+	if sc.DieAfter > 0 {
+		return // a TNC that goes away: every call returns (with an error), nothing crashes
 	}
 	if o.openErr != nil {
 		add("open-fails", "%v", o.openErr)
@@ -626,6 +698,9 @@ func c14Judge(sc c14Scn, o *c14Obs, res *vs.Result) (out []c14Finding) {
 			return
 		}
 		var want []byte
+		for k := 0; k < sc.Flood; k++ {
+			want = append(want, c13Payload(k%97, 6)...)
+		}
 		for k, n := range sc.Frames {
 			want = append(want, c13Payload(k, n)...)
 		}
@@ -637,6 +712,20 @@ func c14Judge(sc c14Scn, o *c14Obs, res *vs.Result) (out []c14Finding) {
 			add("inbound-stream-mismatch", "Read returned %d bytes, the ARQ frames carry %d (first difference at %d; read error %v)", len(o.read), len(want), d, o.readErr)
 		} else if o.readErr != io.EOF {
 			add("inbound-no-eof", "%v", o.readErr)
+		}
+		if sc.Second && len(out) == 0 {
+			var want2 []byte
+			for k, n := range sc.Frames {
+				want2 = append(want2, c13Payload(k+10, n)...)
+			}
+			switch {
+			case o.acceptErr2 != nil:
+				add("second-accept-fails", "%v", o.acceptErr2)
+			case !bytes.Equal(o.read2, want2):
+				add("inbound-stream-mismatch|second-session", "the second session on the listener: Read returned %d bytes, its ARQ frames carry %d (read error %v)", len(o.read2), len(want2), o.readErr2)
+			case o.readErr2 != io.EOF:
+				add("inbound-no-eof|second-session", "%v", o.readErr2)
+			}
 		}
 	case "outbound", "ptt":
 		if o.dialErr != nil {
@@ -726,6 +815,11 @@ func c14Scenarios(thorough bool) []c14Scn {
 			}
 		}
 		out = append(out, c14Scn{Kind: "listen", Serial: serial, Frames: []int{3, 4}})
+		out = append(out, c14Scn{Kind: "listen", Serial: serial, Frames: []int{3, 4}, Second: true})
+		for k := 1; k <= 10; k++ { // the TNC is lost while the application opens it and dials
+			out = append(out, c14Scn{Kind: "dial", Serial: serial, Dial: "connected", DieAfter: k})
+		}
+		out = append(out, c14Scn{Kind: "inbound", Serial: serial, Flood: 4200, Frames: []int{3}}) // the library queues 4096 frames
 		out = append(out, c14Scn{Kind: "inbound", Serial: serial, Frames: []int{5, 4, 6}, Mixed: true}, c14Scn{Kind: "inbound", Serial: serial, Frames: []int{5, 4}, ReadBuf: 2, Mixed: true})
 		if serial {
 			for _, rb := range []int{0, 2} {
@@ -781,6 +875,17 @@ func C14(args []string) {
 	if r.Thorough() {
 		maxBound = 2
 	}
+	devBound := 0
+	if v := os.Getenv("VERIF_ONLY"); v != "" { // development aid: only the scenarios whose description contains the text, to VERIF_BOUND
+		var only []c14Scn
+		for _, sc := range scns {
+			if strings.Contains(sc.describe(), v) {
+				only = append(only, sc)
+			}
+		}
+		scns = only
+		fmt.Sscan(os.Getenv("VERIF_BOUND"), &devBound)
+	}
 	r.Sharded(len(scns), func(i int) {
 		sc := scns[i]
 		e := &vs.Explorer{Harness: c14Harness(sc, &o), Mode: vs.DelayBounded, Cfg: cfg, MaxExec: 800}
@@ -788,13 +893,16 @@ func C14(args []string) {
 			e.MaxExec = 40000
 		}
 		maxBound := maxBound
+		if devBound > 0 {
+			maxBound, e.MaxExec = devBound, 3000000
+		}
 		big := false
 		for _, n := range append(append([]int{}, sc.Frames...), sc.Writes...) {
 			if n > 10000 {
 				big = true
 			}
 		}
-		if sc.Seg > 3 || big || sc.Kind == "malformed" && sc.Mal >= 7 {
+		if sc.Seg > 3 || big || sc.Flood > 0 || sc.Kind == "malformed" && sc.Mal >= 7 {
 			maxBound = 0
 		}
 		if sc.Deep {
